@@ -217,3 +217,158 @@ class FloodFillAplx:
                 and _trace[3][0] == "read_struct_field"
                 and _trace[4][0] == "ffd" and _trace[4][1] == pid and _trace[4][2] == g_binary and _trace[4][3] == g_base
                 and _trace[5] == ("ffe", pid, g_app_id, (1 if g_wait else 0), fr))
+
+
+# ---- the retry loop of load_application, statement by statement (fragments of the real function) -----------------------
+# The loop rebuilds the map of what is still unloaded out of per-core state reads (dicts of dicts of sets, built by three
+# nested loops); each level is put under contract on its own statements, the composition over whole maps is bounded.
+from pyvc.values import TSet, TTuple as _TT, TMap, TOpt   # noqa: E402
+from pyvc.speclib import iff, forall_int, exists_int   # noqa: E402
+
+WAIT = 5        # the "wait" core state, written from sark.h (enum run-time states: ... INIT 4, WAIT 5 ...), not read from rig.consts
+
+
+def _read_state(E, obj, args, kwargs, st, node):
+    """read_vcpu_struct_field("cpu_state", x, y, p): the state read is the ghost input g_state; the read is recorded"""
+    s = st.copy()
+    s.trace = ListV(s.trace.items + (("read_state",) + tuple(args),))
+    return [(s, st.env["g_state"], None)]
+
+
+@contract("rig/machine_control/machine_controller.py::MachineController.load_application@forbody:2")
+class LoadApplicationCoreCheck:
+    """one core of the verification pass: it stays on the unloaded list exactly when its state is not `wait`"""
+    properties = ("C09",)
+    params = dict(self=TRec("MachineController"), x=TInt(0, 255), y=TInt(0, 255), p=TInt(0, 17), unloaded_cores=TSet(TInt()),
+                  g_state=TInt(0, 15))
+    fragment_result = ("unloaded_cores",)
+    fragment_head = "for p in cores:"
+    externals = {"MachineController.read_vcpu_struct_field": _read_state}
+    options = {"int_class": "rig/machine_control/consts.py::AppState"}
+    assumptions = ["read_vcpu_struct_field is external here (C07 / C14): the state it returns is a ghost input"]
+
+    def native(x, y, p, unloaded_cores, g_state):
+        # the real load_application on a one-core map, one attempt, per-core verification: the core is reported unloaded
+        # (SpiNNakerLoadingError naming it) exactly when the fragment leaves it on the list
+        if p in unloaded_cores:
+            raise __import__("pyvc.replay", fromlist=["OutsideHarness"]).OutsideHarness()
+        import rig.machine_control.machine_controller as M
+        mc = M.MachineController.__new__(M.MachineController)
+        M.ContextMixin.__init__(mc, {"app_id": 30})
+        reads = []
+        mc.flood_fill_aplx = lambda *a, **k: None
+        mc.read_vcpu_struct_field = lambda field, x_, y_, p_: (reads.append(("read_state", field, x_, y_, p_)), g_state)[1]
+        real_sleep, M.time.sleep = M.time.sleep, (lambda s: None)
+        try:
+            try:
+                mc.load_application({"app": {(x, y): {p}}}, app_id=30, wait=True, n_tries=0, app_start_delay=0, use_count=False)
+                out = set(unloaded_cores)
+            except M.SpiNNakerLoadingError as e:
+                out = set(unloaded_cores) | set(e.app_map["app"][(x, y)])
+        finally:
+            M.time.sleep = real_sleep
+        return {"__native__": True, "result": (out,), "raised": None, "_trace": reads}
+
+    def requires(g_state):
+        return 0 <= g_state <= 11 or g_state == 15       # the states SARK defines (the 4-bit field has three unused codes)
+
+    def ensures_reads_the_state_of_exactly_this_core(x, y, p, _trace):
+        return len(_trace) == 1 and _trace[0] == ("read_state", "cpu_state", x, y, p)
+
+    def ensures_unloaded_exactly_when_not_waiting(p, unloaded_cores, g_state, result):
+        return (iff(p in result[0], p in unloaded_cores or g_state != WAIT)
+                and forall_int(lambda q: implies(q != p, (q in result[0]) == (q in unloaded_cores))))
+
+
+T2 = _TT(TInt(0, 255), TInt(0, 255))
+from pyvc.values import TSmallSet   # noqa: E402
+CORES = TSmallSet(list(range(18)))       # the cores of a chip
+
+
+@contract("rig/machine_control/machine_controller.py::MachineController.load_application@if:4")
+class LoadApplicationChipCheck:
+    """a chip stays on the unloaded list exactly when one of its cores does, and then with exactly those cores"""
+    properties = ("C09",)
+    params = dict(x=TInt(0, 255), y=TInt(0, 255), unloaded_cores=CORES, unloaded_targets=TMap(T2, CORES))
+    fragment_result = ("unloaded_targets",)
+    fragment_head = "unloaded_targets[(x, y)] = unloaded_cores"     # (anchored by what the `if` guards)
+
+    def native(x):
+        raise __import__("pyvc.replay", fromlist=["OutsideHarness"]).OutsideHarness()
+
+    def requires(x, y, unloaded_targets):
+        return (x, y) not in unloaded_targets           # (chips are the keys of a dict: each is visited once)
+
+    def ensures_listed_exactly_when_a_core_is_unloaded(x, y, unloaded_cores, unloaded_targets, result):
+        some = any(q in unloaded_cores for q in range(18))
+        return (iff((x, y) in result[0], some)
+                and implies(some, all((q in result[0][(x, y)]) == (q in unloaded_cores) for q in range(18))))
+
+    def ensures_other_chips_untouched(x, y, unloaded_targets, result):
+        return forall_int(lambda a, b: implies(not (a == x and b == y), ((a, b) in result[0]) == ((a, b) in unloaded_targets)
+                                               and implies((a, b) in unloaded_targets,
+                                                           all((q in result[0][(a, b)]) == (q in unloaded_targets[(a, b)]) for q in range(18)))))
+
+
+def _store_app(E, obj, args, kwargs, st, node):
+    """new_unloadeds[app_name] = unloaded_targets: the name is recorded, the map stored is the ghost g_stored"""
+    s = st.copy()
+    s.env = dict(s.env)
+    s.env["g_stored"] = args[1]
+    s.trace = ListV(s.trace.items + (("still_unloaded", args[0]),))
+    return [(s, NONE, None)]
+
+
+@contract("rig/machine_control/machine_controller.py::MachineController.load_application@if:5")
+class LoadApplicationBinaryCheck:
+    """a binary stays on the unloaded list exactly when one of its chips does, and then with exactly those chips and cores"""
+    properties = ("C09",)
+    params = dict(app_name=TInt(), unloaded_targets=TMap(T2, CORES), new_unloadeds=TRec("Dict"), g_stored=TMap(T2, CORES))
+    fragment_result = ()
+    fragment_head = "new_unloadeds[app_name] = unloaded_targets"     # (anchored by what the `if` guards)
+    externals = {"Dict.__setitem__": _store_app}
+    assumptions = ["the dict of still-unloaded binaries is an opaque object here: what is stored into it is recorded (name in the trace, map as ghost g_stored)"]
+
+    def native(app_name):
+        raise __import__("pyvc.replay", fromlist=["OutsideHarness"]).OutsideHarness()
+
+    def ensures_listed_exactly_when_a_chip_is_unloaded(app_name, unloaded_targets, g_stored_post, _trace):
+        some = exists_int(lambda a, b: (a, b) in unloaded_targets)
+        return (iff(len(_trace) == 1, some) and len(_trace) <= 1
+                and implies(some, _trace[0] == ("still_unloaded", app_name)
+                            and forall_int(lambda a, b: ((a, b) in g_stored_post) == ((a, b) in unloaded_targets)
+                                           and implies((a, b) in unloaded_targets,
+                                                       all((q in g_stored_post[(a, b)]) == (q in unloaded_targets[(a, b)]) for q in range(18))))))
+
+
+def _send_signal(E, obj, args, kwargs, st, node):
+    s = st.copy()
+    s.trace = ListV(s.trace.items + (("signal",) + tuple(args),))
+    return [(s, NONE, None)]
+
+
+APPMAP = TMap(TInt(), TInt())       # binary (by id) -> what is still unloaded for it (opaque here: only emptiness matters)
+
+
+@contract("rig/machine_control/machine_controller.py::MachineController.load_application@seq:11:2")
+class LoadApplicationOutcome:
+    """what follows the retry loop: the loading error exactly when something is still unloaded - carrying that map - and
+    otherwise the start signal for this application exactly when the caller did not ask for the cores to be left waiting"""
+    properties = ("C09",)
+    params = dict(self=TRec("MachineController"), unloaded=APPMAP, wait=TBool(), app_id=TInt(0, 255))
+    fragment_result = ()
+    fragment_head = "raise SpiNNakerLoadingError(unloaded)"     # (anchored by what the first `if` guards)
+    externals = {"MachineController.send_signal": _send_signal}
+    raises = {"SpiNNakerLoadingError": None}
+    assumptions = ["send_signal is recorded here (its packet: C18 / bounded layer)"]
+
+    def native(app_id):
+        raise __import__("pyvc.replay", fromlist=["OutsideHarness"]).OutsideHarness()
+
+    def raises_SpiNNakerLoadingError(unloaded, _trace):
+        return exists_int(lambda k: k in unloaded) and len(_trace) == 0
+
+    def ensures_returns_only_when_nothing_is_left_and_starts_unless_asked_to_wait(unloaded, wait, app_id, _trace):
+        return (not exists_int(lambda k: k in unloaded)
+                and implies(wait, len(_trace) == 0)
+                and implies(not wait, len(_trace) == 1 and _trace[0] == ("signal", "start", app_id)))
